@@ -138,7 +138,8 @@ int main(int argc, char **argv) {
     if (fresh) {
       fflush(proto);
       pid_t p = fork();
-      if (p == 0) { int ok = xrl_op(&o, tok, nt, NULL); long sd = stray_stdout(); if (sd) { char x[48]; snprintf(x, sizeof x, " STDOUT+%ld", sd); strncat(out, x, sizeof out - strlen(out) - 1); }
+      if (p == 0) { stdout_seen = lseek(1, 0, SEEK_CUR);      /* fd 1 shares its offset with the siblings: count from where THIS child starts */
+                    int ok = xrl_op(&o, tok, nt, NULL); long sd = stray_stdout(); if (sd) { char x[48]; snprintf(x, sizeof x, " STDOUT+%ld", sd); strncat(out, x, sizeof out - strlen(out) - 1); }
                     observers_after(out, sizeof out);
                     printf("R %d %s\n", idx, ok ? out : "bad-op"); fflush(proto); _exit(0); }
       int st; waitpid(p, &st, 0);
